@@ -35,6 +35,10 @@ EXTENDS BV, BVInt, Integers, Sequences, FiniteSets
 (***************************************************************************)
 (* Small helpers on bit vectors                                            *)
 (***************************************************************************)
+\* TLC evaluates function constructors lazily and re-evaluates them on every application; nested
+\* bit-vector expressions therefore blow up.  BvForce turns a vector into an explicit tuple (no change
+\* of value).  It is applied to every intermediate vector that is used more than once.
+BvForce(a) == SubSeq(a, 1, Len(a))
 IvMinBv(w) == [i \in 1..w |-> IF i = w THEN 128 ELSE 0]      \* most negative value
 IvMaxBv(w) == [i \in 1..w |-> IF i = w THEN 127 ELSE 255]    \* most positive value
 IvOne8 == <<1, 0, 0, 0, 0, 0, 0, 0>>
@@ -52,7 +56,7 @@ BvModSmall(a, m) ==
 \* quotient of a by an integer 0 < m < 2^22 (schoolbook long division on bytes)
 BvDivSmall(a, m) ==
   LET rem[i \in 1..(Len(a) + 1)] == IF i > Len(a) THEN 0 ELSE (rem[i + 1] * 256 + a[i]) % m
-  IN [i \in 1..Len(a) |-> (rem[i + 1] * 256 + a[i]) \div m]
+  IN BvForce([i \in 1..Len(a) |-> (rem[i + 1] * 256 + a[i]) \div m])
 \* number of trailing zero bits of a # 0
 ByteTz(b) == CHOOSE n \in 0..7 : b % (2 ^ (n + 1)) # 0 /\ b % (2 ^ n) = 0
 BvTz(a) == LET j == CHOOSE k \in 1..Len(a) : a[k] # 0 /\ \A i \in 1..(k - 1) : a[i] = 0
@@ -66,7 +70,7 @@ BvDivides(st, d) ==
   IF st = IvOne8 THEN TRUE
   ELSE IF BvIsSmall(st) THEN BvModSmall(d, BvToNat(st)) = 0
   ELSE LET t == BvTz(st)
-           m == BvShrN(st, t)
+           m == BvForce(BvShrN(st, t))
        IN IF BvIsSmall(m)
           THEN BvLowZero(d, t) /\ BvModSmall(BvShrN(d, t), BvToNat(m)) = 0
           ELSE LET W == IF Len(d) > 8 THEN Len(d) ELSE 8
@@ -77,10 +81,10 @@ BvDivides(st, d) ==
 BvUDivFast(a, b) ==
   IF BvIsSmall(b) THEN BvDivSmall(a, BvToNat(b))
   ELSE LET t == BvTz(b)
-           m == BvShrN(b, t)
-       IN IF BvIsSmall(m) THEN BvDivSmall(BvShrN(a, t), BvToNat(m))
+           m == BvForce(BvShrN(b, t))
+       IN IF BvIsSmall(m) THEN BvDivSmall(BvForce(BvShrN(a, t)), BvToNat(m))
           ELSE IF BvULt(a, b) THEN BvZero(Len(a))
-          ELSE BvUDiv(a, b)
+          ELSE BvForce(BvUDiv(a, b))
 
 (***************************************************************************)
 (* gamma                                                                   *)
@@ -89,7 +93,7 @@ InGamma(v, x) ==
   /\ Len(v) = x.w
   /\ BvSLe(x.s, v)
   /\ BvSLe(v, x.e)
-  /\ IF BvIsZero(x.st) THEN v = x.s ELSE BvDivides(x.st, BvSub(v, x.s))
+  /\ IF BvIsZero(x.st) THEN v = x.s ELSE BvDivides(x.st, BvForce(BvSub(v, x.s)))
 
 \* "bounds, stride and width stay well-formed": start <= end, the end lies on the stride,
 \* stride 0 exactly for singletons, all components of the stated width
@@ -98,7 +102,7 @@ WellFormed(x) ==
   /\ BvIsBv(x.s, x.w) /\ BvIsBv(x.e, x.w) /\ BvIsBv(x.st, 8)
   /\ BvSLe(x.s, x.e)
   /\ (BvIsZero(x.st) <=> x.s = x.e)
-  /\ (~BvIsZero(x.st) => BvDivides(x.st, BvSub(x.e, x.s)))
+  /\ (~BvIsZero(x.st) => BvDivides(x.st, BvForce(BvSub(x.e, x.s))))
 
 IvTop(w) == [w |-> w, s |-> IvMinBv(w), e |-> IvMaxBv(w), st |-> IvOne8]
 IvConst(v) == [w |-> Len(v), s |-> v, e |-> v, st |-> BvZero(8)]
@@ -126,35 +130,48 @@ SignedOf(c, w) == IF c >= (256 ^ w) \div 2 THEN c - 256 ^ w ELSE c
 (***************************************************************************)
 IvLcg(z) == (z * 75 + 74) % 65537
 IvMix(z) == IvLcg(IvLcg(IvLcg(z % 65537)))
-IvRandBv(seed, i, W) == [j \in 1..W |-> IvMix(seed * 7 + 977 * i + 131 * j) % 256]
+IvRandBv(seed, i, W) == BvForce([j \in 1..W |-> IvMix(seed * 7 + 977 * i + 131 * j) % 256])
 IvW(x) == IF x.w > 8 THEN x.w ELSE 8
 \* number of members - 1, as a bit vector of IvW(x) bytes
 IvCount(x) ==
   IF BvIsZero(x.st) THEN BvZero(IvW(x))
-  ELSE BvUDivFast(BvZExt(BvSub(x.e, x.s), IvW(x)), BvZExt(x.st, IvW(x)))
+  ELSE BvUDivFast(BvForce(BvZExt(BvSub(x.e, x.s), IvW(x))), BvForce(BvZExt(x.st, IvW(x))))
 \* the k-th member (k a bit vector of IvW(x) bytes, k <= IvCount(x))
-IvMember(x, k) == BvAdd(x.s, BvResizeU(BvMul(k, BvZExt(x.st, IvW(x))), x.w))
+IvMember(x, k) == BvForce(BvAdd(x.s, BvResizeU(BvForce(BvMul(k, BvForce(BvZExt(x.st, IvW(x))))), x.w)))
 IvSampleIdx(x, seed) ==
   LET W == IvW(x)
       n == IvCount(x)
-      K(i) == BvFromNat(i, W)
+      K(i) == BvForce(BvFromNat(i, W))
   IN IF BvIsSmall(n) /\ BvToNat(n) <= 40 THEN {K(i) : i \in 0..BvToNat(n)}
      ELSE LET sh == BvLzCountN(n) + 1                         \* r >> sh < 2^(bitlen(n)-1) <= n
-              R == {BvShrN(IvRandBv(seed, i, W), sh) : i \in 1..3}
+              R == {BvForce(BvShrN(IvRandBv(seed, i, W), sh)) : i \in 1..3}
               \* first member >= 0 when the interval straddles the sign boundary: ceil(-s / st)
               k0 == IF BvSign(x.s) = 1 /\ BvSign(x.e) = 0
-                    THEN {BvAdd(BvUDivFast(BvSub(BvNeg(BvSExt(x.s, W)), K(1)), BvZExt(x.st, W)), K(1))}
+                    THEN {BvForce(BvAdd(BvUDivFast(BvForce(BvSub(BvNeg(BvSExt(x.s, W)), K(1))), BvForce(BvZExt(x.st, W))), K(1)))}
                     ELSE {}
-          IN {K(0), K(1), BvSub(n, K(1)), n}
-             \cup R \cup {BvSub(n, r) : r \in R}
-             \cup k0 \cup {BvSub(k, K(1)) : k \in k0}
+          IN {K(0), K(1), BvForce(BvSub(n, K(1))), n}
+             \cup R \cup {BvForce(BvSub(n, r)) : r \in R}
+             \cup k0 \cup {BvForce(BvSub(k, K(1))) : k \in k0}
 Members(x, seed) == {IvMember(x, k) : k \in IvSampleIdx(x, seed)}
+
+\* The members of x among the N+1 nearest at or above and the N+1 nearest at or below the value v
+\* (v a bit vector of x.w bytes): the members that decide a comparison with v / an intersection end.
+IvMembersNear(x, v, N) ==
+  IF BvIsZero(x.st) THEN {x.s}
+  ELSE LET W == IvW(x)
+           n == IvCount(x)
+           K(i) == BvForce(BvFromNat(i, W))
+           \* index of the last member <= v (0 if v lies below the start, the last index if above the end)
+           kv == IF BvSLt(v, x.s) THEN K(0) ELSE BvUDivFast(BvForce(BvZExt(BvSub(v, x.s), W)), BvForce(BvZExt(x.st, W)))
+           kd == IF BvULe(kv, n) THEN kv ELSE n
+           ks == {BvForce(BvAdd(kd, K(j))) : j \in 0..(N + 1)} \cup {BvForce(BvSub(kd, K(j))) : j \in {i \in 0..N : BvULe(K(i), kd)}}
+       IN {IvMember(x, k) : k \in {kk \in ks : BvULe(kk, n)}}
 
 \* The concrete inputs an operation is quantified over: ALL members when the interval is at most
 \* 2 bytes wide and has at most limit+1 members, else the member sample.
 Conc(x, seed, limit) ==
   IF x.w <= 2 /\ IvCountI(IvI(x)) <= limit
-  THEN {BvFromInt(a, x.w) : a \in GammaEnumI(IvI(x))}
+  THEN {BvForce(BvFromInt(a, x.w)) : a \in GammaEnumI(IvI(x))}
   ELSE Members(x, seed)
 \* membership with the integer fast path; ri = IvI(r) is passed in so that it is computed once
 InG(c, r, ri) == IF r.w <= 2 THEN Len(c) = r.w /\ InGammaI(BvToInt(c), ri) ELSE InGamma(c, r)
@@ -174,7 +191,7 @@ SoundBinI(op, xi, yi, ri) ==
 SoundBinB(op, x, y, r, seed) ==
   LET ri == IvI(r) IN
   \A a \in Conc(x, seed, PairLimit) : \A b \in Conc(y, seed + 1, PairLimit) :
-     LET c == BvBinOp(op, a, b)
+     LET c == BvForce(BvBinOp(op, a, b))
      IN c # BvUnknown => InG(c, r, ri)
 SoundBin(op, x, y, r, seed) ==
   /\ r.w = BinResultSize(op, x.w, y.w)
@@ -187,21 +204,21 @@ SoundUn(op, x, r, seed) ==
   /\ WellFormed(r)
   /\ \/ IvIsAll(r)
      \/ LET ri == IvI(r) IN
-        \A a \in Conc(x, seed, EnumLimit) : LET c == BvUnOp(op, a) IN c # BvUnknown => InG(c, r, ri)
+        \A a \in Conc(x, seed, EnumLimit) : LET c == BvForce(BvUnOp(op, a)) IN c # BvUnknown => InG(c, r, ri)
 
 SoundCast(op, x, size, r, seed) ==
   /\ r.w = size
   /\ WellFormed(r)
   /\ \/ IvIsAll(r)
      \/ LET ri == IvI(r) IN
-        \A a \in Conc(x, seed, EnumLimit) : LET c == BvCast(op, a, size) IN c # BvUnknown => InG(c, r, ri)
+        \A a \in Conc(x, seed, EnumLimit) : LET c == BvForce(BvCast(op, a, size)) IN c # BvUnknown => InG(c, r, ri)
 
 SoundSubpiece(x, low, size, r, seed) ==
   /\ r.w = size
   /\ WellFormed(r)
   /\ \/ IvIsAll(r)
      \/ LET ri == IvI(r) IN
-        \A a \in Conc(x, seed, EnumLimit) : InG(BvSubpiece(a, low, size), r, ri)
+        \A a \in Conc(x, seed, EnumLimit) : InG(BvForce(BvSubpiece(a, low, size)), r, ri)
 
 (***************************************************************************)
 (* C03: merge.  gamma inclusion / equality; m = merge(x, y),               *)
@@ -209,9 +226,12 @@ SoundSubpiece(x, low, size, r, seed) ==
 (***************************************************************************)
 Subset(x, y, seed) ==                 \* gamma(x) \subseteq gamma(y)
   /\ x.w = y.w
-  /\ \/ IvIsAll(y)
+  /\ \/ (x.s = y.s /\ x.e = y.e /\ x.st = y.st)             \* the same set (shortcut)
+     \/ IvIsAll(y)
      \/ /\ ~IvIsAll(x)
-        /\ LET yi == IvI(y) IN \A a \in Conc(x, seed, EnumLimit) : InG(a, y, yi)
+        /\ IF x.w <= 2
+           THEN LET xi == IvI(x)  yi == IvI(y) IN \A a \in GammaEnumI(xi) : InGammaI(a, yi)   \* every member
+           ELSE \A a \in Members(x, seed) : InGamma(a, y)                                  \* sampled members
 GammaEq(x, y, seed) == Subset(x, y, seed) /\ Subset(y, x, seed + 3)
 Upper(x, y, m, seed) == Subset(x, m, seed) /\ Subset(y, m, seed + 1)
 Idem(x, mxx, seed) == GammaEq(mxx, x, seed)
@@ -230,23 +250,22 @@ CondHolds(kind, a, c) ==
     [] kind = "sge" -> BvSLe(c, a)
     [] kind = "uge" -> BvULe(c, a)
     [] kind = "ne" -> a # c
-\* the same on 1-byte signed integers, through the cross-checked BVInt operations
+\* the same on 1-byte signed integers (MC_Interval checks it against BVInt!IBinOp on all pairs)
 CondHoldsI(kind, a, c) ==
-  1 = CASE kind = "sle" -> IBinOp("IntSLessEqual", ToU(a), ToU(c))
-        [] kind = "ule" -> IBinOp("IntLessEqual", ToU(a), ToU(c))
-        [] kind = "sge" -> IBinOp("IntSLessEqual", ToU(c), ToU(a))
-        [] kind = "uge" -> IBinOp("IntLessEqual", ToU(c), ToU(a))
-        [] kind = "ne" -> IBinOp("IntNotEqual", ToU(a), ToU(c))
+  CASE kind = "sle" -> a <= c
+    [] kind = "ule" -> ToU(a) <= ToU(c)
+    [] kind = "sge" -> a >= c
+    [] kind = "uge" -> ToU(a) >= ToU(c)
+    [] kind = "ne" -> a # c
 \* integers lo .. lo+n-1 / hi-n+1 .. hi as bit vectors: candidates for members close to a bound
 IvScan(v, n, up) == {IF up THEN BvAdd(v, BvFromNat(j, Len(v))) ELSE BvSub(v, BvFromNat(j, Len(v))) : j \in 0..(n - 1)}
 ResultShapeOK(x, r) == r.ok => (r.v.w = x.w /\ WellFormed(r.v))
 \* Every member of x that satisfies the condition is still a member of the result, and
 \* "unsatisfiable" is reported only if no member satisfies it.  Quantified over Conc(x) and, for
-\* sampled intervals, additionally over the members of x within distance 48 of the bound.
+\* sampled intervals, additionally over the 4 members of x on either side of the bound.
 Refine(kind, x, c, r, seed) ==
   /\ ResultShapeOK(x, r)
-  /\ LET cand == Conc(x, seed, EnumLimit) \cup
-                 (IF x.w <= 2 THEN {} ELSE {a \in IvScan(c, 48, TRUE) \cup IvScan(c, 48, FALSE) : InGamma(a, x)})
+  /\ LET cand == Conc(x, seed, EnumLimit) \cup (IF x.w <= 2 THEN {} ELSE IvMembersNear(x, c, 3))
          ri == IvI(r.v)
      IN \A a \in cand : CondHolds(kind, a, c) => (r.ok /\ InG(a, r.v, ri))
 \* 1-byte interval against ALL 256 bounds: results[i] is the result for the bound with unsigned
@@ -261,18 +280,19 @@ RefineBatch(kind, x, results) ==
               ri == IvI(r.v)
           IN /\ ResultShapeOK(x, r)
              /\ \A a \in G : CondHoldsI(kind, a, c) => (r.ok /\ InGammaI(a, ri))
-\* Intersection.  Candidates: Conc(x), Conc(y) and, for sampled intervals, the integers within
-\* distance 300 above the larger start and below the smaller end (finds the first and last common
-\* members whenever the least common multiple of the strides is below 300).
+\* Intersection.  <= 2 bytes: every member of x.  Wider: the member samples of x and y and the 25
+\* members of x and of y next to both ends of the common range (finds the first and last common
+\* member whenever stride / gcd(strides) <= 25 for one of the two).
 Intersect(x, y, r, seed) ==
   /\ x.w = y.w
   /\ ResultShapeOK(x, r)
-  /\ LET lo == IF BvSLe(x.s, y.s) THEN y.s ELSE x.s
-         hi == IF BvSLe(x.e, y.e) THEN x.e ELSE y.e
-         cand == Conc(x, seed, EnumLimit) \cup Conc(y, seed + 1, EnumLimit) \cup
-                 (IF x.w <= 2 THEN {} ELSE IvScan(lo, 300, TRUE) \cup IvScan(hi, 300, FALSE))
-         xi == IvI(x)
-         yi == IvI(y)
-         ri == IvI(r.v)
-     IN \A a \in cand : (InG(a, x, xi) /\ InG(a, y, yi)) => (r.ok /\ InG(a, r.v, ri))
+  /\ IF x.w <= 2
+     THEN LET xi == IvI(x)  yi == IvI(y)  ri == IvI(r.v)
+          IN \A a \in GammaEnumI(xi) : InGammaI(a, yi) => (r.ok /\ InGammaI(a, ri))
+     ELSE LET lo == IF BvSLe(x.s, y.s) THEN y.s ELSE x.s
+              hi == IF BvSLe(x.e, y.e) THEN x.e ELSE y.e
+              cand == Members(x, seed) \cup Members(y, seed + 1)
+                      \cup IvMembersNear(x, lo, 24) \cup IvMembersNear(x, hi, 24)
+                      \cup IvMembersNear(y, lo, 24) \cup IvMembersNear(y, hi, 24)
+          IN \A a \in cand : (InGamma(a, x) /\ InGamma(a, y)) => (r.ok /\ InGamma(a, r.v))
 =============================================================================
